@@ -278,7 +278,7 @@ def hooks(stats=None):
 # ---------------------------------------------------------------------------
 COLLIDE = ["add", "add", "short_child", "short_sibling", "addnode", "addnode_other", "copyto_self", "copyto_children", "addtree",
            "move", "move", "remove_keep", "remove_keep_clones", "set_data", "set_data_id", "set_data_group", "rename", "rename", "rename", "from_dict",
-           "from_dict_nested", "tree_from_dict", "merge_then_add", "merge_then_add"]
+           "from_dict_nested", "tree_from_dict", "merge_then_add", "merge_then_add", "after_failed_batch", "after_failed_batch", "after_promote", "after_promote"]
 NEAR = ["other_parent", "other_id", "move_same_parent", "move_free", "copy_below_sibling", "keep_own_clone", "keep_free", "merge_groups",
         "set_same", "addnode_free", "from_dict_free", "rename_free"]
 
@@ -590,6 +590,68 @@ class Gen03(mut_c01.Gen01):
             return True
         return False
 
+    def co_after_failed_batch(self):
+        """a batch copy (add(tree) / copy_to of children) that fails for an UNRELATED reason (a `before` node that is not a
+        child of the target, plain nodes into a typed tree), then a colliding add into the same tree: whatever the failed
+        batch switched on or off has to be back to normal"""
+        w, rng = self.w, self.rng
+        x = self.pick_pc()
+        if not x:
+            return False
+        ti, t, p, c = x
+        nodes = walk(t)
+        foreign = [n for n in nodes if n._parent is not p]
+        srcs = [i for i in range(len(w.trees)) if kids(w.trees[i]._root)]
+        if not srcs:
+            return False
+        sti = rng.choice(srcs)
+        mode = rng.choice(["before", "before", "types"])
+        other_class = [i for i in srcs if isinstance(w.trees[i], TypedTree) != isinstance(t, TypedTree)]
+        if mode == "types" and other_class:
+            sti = rng.choice(other_class)
+            self.do(["copyto", sti, 0, ti, self.ref(t, p), False, None, rng.random() < 0.5])
+        elif foreign:
+            self.do(["addtree", ti, self.ref(t, p), sti, {"n": w.rel(rng.choice(foreign))}, rng.choice([None, False])])
+        else:
+            return False
+        return self.co_add() or True
+
+    def co_after_promote(self):
+        """a child c (its id carried by a clone elsewhere as well) is promoted by remove(keep_children=True) of its parent,
+        or moved; then c's id is placed next to c again: the refusal has to look at c's CURRENT parent"""
+        w, rng = self.w, self.rng
+        for _ in range(5):
+            ti = self.pick_tree()
+            t = w.trees[ti]
+            cands = [n for n in walk(t) if kids(n) and not has_dup([i for s_ in kids(n._parent) if s_ is not n for i in [s_._data_id]] + kid_ids(n))]
+            if not cands:
+                continue
+            n = rng.choice(cands)
+            c = rng.choice(kids(n))
+            p = n._parent
+            d, did = self.data_args(t, c)
+            # a clone of c somewhere else, so that the id has a clone list before the promotion
+            qs = [q for q in [t._root] + walk(t) if q is not n and q is not p and c._data_id not in kid_ids(q)]
+            if qs and len(self.same_id_nodes(c, [ti])) < 2:
+                self.do(["add", ti, self.ref(t, rng.choice(qs)), d, did, self._kind(ti), None])
+            self.do(["remove", ti, w.rel(n), True, False])
+            if c._tree is None:
+                return True
+            how = rng.choice(["add", "add", "short", "addnode"])
+            pr = self.ref(t, c._parent)
+            if how == "add":
+                self.do(["add", ti, pr, d, did, self._kind(ti), self.valid_before(t, c._parent)])
+            elif how == "short":
+                self.do(["short", ti, w.rel(c), rng.choice(["prepend_sibling", "append_sibling"]), d, did, None])
+            else:
+                others = [s_ for _, s_ in self.same_id_nodes(c, [ti]) if s_ is not c]
+                if others:
+                    self.do(["addnode", ti, pr, ti, w.rel(rng.choice(others)), None, self._kind(ti), None, None])
+                else:
+                    self.do(["add", ti, pr, d, did, self._kind(ti), None])
+            return True
+        return False
+
     def co_rename(self):
         """two string siblings: the later one (so the check has to look past the first sibling) is renamed to the other"""
         for _ in range(6):
@@ -869,3 +931,40 @@ class LoadPart:
         _res, collide, msg = self.oracle(nodes, typed=typed, loaded=(t, res))
         return H.Case(desc=desc, coq_input=term, impl_obs=obs, oracle_fail=msg, nontrivial=True,
                       key=H.digest([nodes, typed]), stats=dict(kind="load file", collides=collide, typed=typed, entries=len(nodes) // 3 * 3))
+
+
+def gen_after_failed_batch():
+    """two trees; add(tree) with a `before` node that is not a child of the target fails inside the batch; then every add
+    of every present data object under every parent of the target tree (colliding and not)"""
+    univ = ["s:a", "s:b", "s:c", "s:x", "s:y", "s:new"]
+    base = [["new", False, None], ["new", False, None],
+            ["add", 0, 0, 0, None, None, None], ["add", 0, 0, 1, None, None, None], ["add", 0, 2, 2, None, None, None],
+            ["add", 1, 0, 3, None, None, None], ["add", 1, 0, 4, None, None, None]]
+    for fail in (["addtree", 0, 2, 1, {"n": 1}, None], ["addtree", 0, 0, 1, {"n": 3}, False], ["addtree", 1, 4, 0, {"n": 5}, None]):
+        alts = []
+        for ti, ps in ((0, [0, 1, 2, 3]), (1, [0, 4, 5])):
+            for p in ps:
+                for d in range(6):
+                    alts.append(["add", ti, p, d, None, None, None])
+                alts.append(["short", ti, p, "prepend_child", 0, None, None])
+        alts += [["addnode", 0, 0, 0, 3, None, None, None, None], ["addnode", 0, 2, 0, 3, None, None, None, True],
+                 ["copyto", 0, 2, 0, 2, False, None, False], ["addtree", 0, 0, 0, None, False], ["addtree", 1, 0, 1, None, None]]
+        yield dict(univ=univ, setup=base + [fail], alts=alts, label="after-failed-batch", n=5)
+
+
+def gen_after_promote():
+    """P holds n(c, e); a clone of c lives elsewhere; n is removed with keep_children (c, e promoted to P) or c is moved;
+    then every add of every data object under every parent (the colliding ones are next to the promoted / moved nodes)"""
+    univ = ["s:n", "s:c", "s:e", "s:q", "s:new"]
+    base = [["new", False, None],
+            ["add", 0, 0, 0, None, None, None], ["add", 0, 1, 1, None, None, None], ["add", 0, 1, 2, None, None, None],   # 1 = n(2 = c, 3 = e)
+            ["add", 0, 0, 3, None, None, None], ["add", 0, 4, 1, None, None, None], ["add", 0, 4, 2, None, None, None]]   # 4 = q(5 = c', 6 = e')
+    for change in (["remove", 0, 1, True, False], ["move", 0, 2, 0, 0, None], ["remove", 0, 4, True, False], ["move", 0, 5, 0, 3, None]):
+        alts = []
+        for p in range(0, 7):
+            for d in range(5):
+                alts.append(["add", 0, p, d, None, None, None])
+        for src in (2, 5, 3, 6):
+            for p in (0, 1, 4):
+                alts.append(["addnode", 0, p, 0, src, None, None, None, None])
+        yield dict(univ=univ, setup=base + [change], alts=alts, label="after-promote", n=6)
